@@ -264,6 +264,7 @@ func (o *Store) walk(t *Collection, withValue bool, cfn func(*node) (*nodeLoc, b
 	res *Item, err error) {
 	rnl := t.rootAddRef()
 	defer t.rootDecRef(rnl)
+	verifYield("pin")
 	n := rnl.root
 	nNode, err := n.read(o)
 	if err != nil || n.isEmpty() || nNode == nil {
